@@ -365,7 +365,8 @@ def fresh(index, rep):
     sites = [c for c in walk_no_nested(sd) if isinstance(c, ast.Call) and dotted(c.func) == "Scenarios"]
     rep.check(len(sites) == 1, rule, "per-run:Scenarios", "Scenarios() (the exactly-once flags) is not constructed per option set", loc=loc(RUN, sd))
     rofc = index.func(RMNT, "ScenarioRunnerNoTrade.run_optimizer_for_country")
-    sites = [c for c in walk_no_nested(rofc) if isinstance(c, ast.Call) and dotted(c.func) == "ScenarioRunner"]
+    from .core import walk_with_local_defs
+    sites = [c for c in walk_with_local_defs(rofc) if isinstance(c, ast.Call) and dotted(c.func) == "ScenarioRunner"]
     rep.check(len(sites) >= 1, rule, "per-run:ScenarioRunner", "ScenarioRunner() is not constructed per country", loc=loc(RMNT, rofc))
     # no module-/class-level instances of the per-run classes
     for rel in run_files(index):
